@@ -267,7 +267,7 @@ def run_shard(item):
                 "{ a } { nn }", "mutation A { a }", "{ a ", "query A { zzz }"]
         inputs = docs
         for q in docs:
-            for opn in (None, "", "A", "B", "Nope", "a"):
+            for opn in (None, "", "A", "B", "Nope", "a", 0, 1, ("A",), b"A", 1.5):
                 for variables in (None, {}, {"v": 3}, {"v": "x"}, {"zz": 1}, [1], "str", 0, [["v", 1]]):
                     for c in COERCERS:
                         one(q, c, opn, variables, out, tag)
